@@ -72,7 +72,9 @@ ExactOK(g, ex) ==
     /\ Req("obs-exact-exception", ~Has(ex, "exception"))
 
 \* C01 applies to local polynomial grids only when every loaded point has all of its parents loaded
-NodalRequired(g) == g.fam # "localp" \/ \A p \in g.pts : AllParents(g, p) \subseteq g.pts
+\* and to global grids only for nested rules (the interpolant of a non-nested sparse grid is not nodal)
+NodalRequired(g) == /\ NestedFam(g)
+                    /\ (g.fam # "localp" \/ \A p \in g.pts : AllParents(g, p) \subseteq g.pts)
 ObsOKFor(g, obs) ==
     /\ Req(<<"obs-nodal", IF ~IsEmpty(g) /\ g.orph THEN "after-a-child-was-promoted-before-a-parent" ELSE "every-promotion-had-its-parents">>,
            (Has(obs, "nodal") /\ Has(obs.nodal, "evaluate") /\ ~IsEmpty(g) /\ NodalRequired(g))
